@@ -228,6 +228,14 @@ def volume(ctx, L, tname, member, n):
     ctx.count(f"volume:{tname}.{member}", k)
 
 
+def _same_kind(got, want):
+    """The result must be the same kind of number as for plain integers (an int, not a float; a bool; a pair for divmod);
+    a typed protocol integer carrying the right value is accepted as well."""
+    if type(got) is type(want):
+        return all(_same_kind(g, w) for g, w in zip(got, want)) if isinstance(want, tuple) else True
+    return hasattr(got, "_int_size") and isinstance(want, int) and not isinstance(want, bool)
+
+
 def _apply(f, a, b):
     try:
         return ("ok", f(a, b))
@@ -246,7 +254,7 @@ def check_ops(ctx, L, tname, v, w, small):
         for arr, (a, b) in (("typed-int", (x, w)), ("int-typed", (v, y)), ("typed-typed", (x, y))):
             got = _apply(f, a, b)
             ctx.case((tname, v, w, name, arr), True, sample=None)
-            if got != want or (got[0] == "ok" and type(got[1]) is not type(want[1])):
+            if got != want or (got[0] == "ok" and not _same_kind(got[1], want[1])):
                 ctx.problem(
                     f"C16:op:{name}:{arr}:{kind}",
                     f"{tname}: {v} {name} {w} as {arr} gives {got}, plain integers give {want}",
